@@ -62,6 +62,7 @@ type Fx struct {
 	tailStmt      ast.Stmt // last statement of the function body when only a bare return follows it
 	loopHeads     map[string]*State
 	loopEntries   map[string]*State
+	countLoops    map[string]countLoop
 }
 
 type unsupported struct{ msg string }
